@@ -296,6 +296,61 @@ let monitors id (label : sx) (pre : istate) (post : istate) (dl : (n * n * n * r
       if List.exists (fun p -> p.p_commit <> None) ps && List.exists (fun p -> p.p_abort <> None) ps then
         specviol id "c01_mixed_commit_abort" (Printf.sprintf "transaction %d has a committing and an aborting proposal" i)
     | None -> ()) ptx;
+  (* C01/C06: the proposals a transaction drives are exactly one per target of its change (of the change it rolls back) *)
+  List.iter (fun (i, t) ->
+    match t.t_props with
+    | Some tg ->
+      let mine = List.sort compare (List.map int_of_n tg) in
+      (match t.t_details with
+       | TChange chs ->
+         let want = List.sort compare (List.map (fun (tt, _) -> int_of_n tt) chs) in
+         if mine <> want then specviol id "c01_proposals_do_not_cover_targets" (Printf.sprintf "transaction %d drives %d proposal(s) for %d target(s)" i (List.length mine) (List.length want))
+       | TRollback ri ->
+         (match find_assoc (int_of_n ri) ptx with
+          | Some r ->
+            (match r.t_details with
+             | TChange chs ->
+               let want = List.sort compare (List.map (fun (tt, _) -> int_of_n tt) chs) in
+               if mine <> want then specviol id "c06_rollback_misses_target" (Printf.sprintf "rollback transaction %d of %d drives %d proposal(s) for %d target(s)" i (int_of_n ri) (List.length mine) (List.length want))
+             | _ -> ())
+          | None -> ()))
+    | None -> ()) ptx;
+  (* C02: the state invariants proved for every reachable world of the model (Proofs/P2_CursorChainInv.v C_inv,
+     P2_CursorGuard.v G_inv, cursors_ordered, links_ordered, unique_prev), evaluated on the implementation's state *)
+  let prop_of t i = find_assoc (t, i) pprops in
+  List.iter (fun (t, c) ->
+    let pr = int_of_n c.c_proposed and co = int_of_n c.c_committed and ap = int_of_n c.c_applied in
+    if not (ap <= co && co <= pr) then specviol id "c02_cursors_not_ordered" (Printf.sprintf "target %d applied=%d committed=%d proposed=%d" t ap co pr);
+    if pr <> 0 && prop_of t pr = None then specviol id "c02_tail_missing" (Printf.sprintf "target %d Proposed.Index %d names no proposal" t pr);
+    List.iter (fun (nm, ix) ->
+      if ix <> 0 then
+        match prop_of t ix with
+        | Some p when p.p_init = Some Done -> ()
+        | _ -> specviol id "c02_cursor_names_unlinked_proposal" (Printf.sprintf "target %d %s index %d" t nm ix)) [ ("committed", co); ("applied", ap) ]) pcfg;
+  List.iter (fun ((t, i), p) ->
+    let prv = int_of_n p.p_prev and nxt = int_of_n p.p_next in
+    if (prv <> 0 && prv >= i) || (nxt <> 0 && nxt <= i) then specviol id "c02_links_not_ordered" (Printf.sprintf "proposal %d-%d prev=%d next=%d" t i prv nxt);
+    if prv <> 0 then
+      (match prop_of t prv with
+       | Some q when int_of_n q.p_next = i -> ()
+       | _ -> specviol id "c02_chain_backlink" (Printf.sprintf "proposal %d-%d has prev=%d but that proposal does not point back" t i prv));
+    if p.p_init <> Some Done && nxt <> 0 then specviol id "c02_open_proposal_has_successor" (Printf.sprintf "proposal %d-%d" t i);
+    (match find_assoc t pcfg with
+     | Some c ->
+       let co = int_of_n c.c_committed and ap = int_of_n c.c_applied in
+       if p.p_validate = Some Done && not (co = prv || i <= co) then
+         specviol id "c02_commit_guard" (Printf.sprintf "validated proposal %d-%d: committed=%d prev=%d" t i co prv);
+       if p.p_apply = Some Failed && not (ap = prv || i <= ap) then
+         specviol id "c02_failed_guard" (Printf.sprintf "apply-failed proposal %d-%d: applied=%d prev=%d" t i ap prv)
+     | None -> ());
+    if p.p_init = Some Done && prv <> 0 then
+      List.iter (fun ((t2, j), q) ->
+        if t2 = t && j < i && q.p_init = Some Done && int_of_n q.p_prev = prv then
+          specviol id "c02_shared_prev" (Printf.sprintf "proposals %d-%d and %d-%d both have prev=%d" t j t i prv)) pprops) pprops;
+  (* at most one proposal per target is still linking, and it is the newest *)
+  List.iter (fun ((t, i), p) ->
+    if p.p_init <> Some Done then
+      List.iter (fun ((t2, j), _) -> if t2 = t && j > i then specviol id "c02_open_is_not_last" (Printf.sprintf "proposal %d-%d is not INITIALIZED but %d-%d exists" t i t j)) pprops) pprops;
   (* which proposal acted in this step *)
   let actor = match lst label with
     | [ A "rec"; A "prop"; t; i; _; _ ] -> Some (inum t, inum i)
@@ -344,7 +399,24 @@ let monitors id (label : sx) (pre : istate) (post : istate) (dl : (n * n * n * r
       if t1 < t0 then specviol id "c10_term_decreased" (Printf.sprintf "target %d term %d->%d" t t0 t1);
       if c.c_master <> c0.c_master && c.c_master <> None && t1 <= t0 then
         specviol id "c10_new_master_same_term" (Printf.sprintf "target %d master %s->%s in term %d" t (s_on c0.c_master) (s_on c.c_master) t1);
-      if int_of_n c.c_aterm > t1 then specviol id "c10_applied_term_ahead" (Printf.sprintf "target %d" t)) pcfg;
+      if int_of_n c.c_aterm > t1 then specviol id "c10_applied_term_ahead" (Printf.sprintf "target %d" t);
+      (* a newly elected master is a connection whose relation exists, is owned by this node and names this target *)
+      (match c.c_master with
+       | Some m when c.c_master <> c0.c_master ->
+         (match List.assoc_opt m (w_rels prew) with
+          | Some (tt, true) when int_of_n tt = t -> ()
+          | _ -> specviol id "c10_elected_without_relation" (Printf.sprintf "target %d master %s" t (sn m)))
+       | _ -> ());
+      (* the applied term rises on a non-persistent target that has applied something only together with a complete,
+         all-OK re-push of the applied values in the new term over the master's connection *)
+      if int_of_n c.c_aterm > int_of_n c0.c_aterm && int_of_n c0.c_applied <> 0
+         && (match List.assoc_opt (n_of_int t) (w_targets prew) with Some pers -> not pers | None -> false) then begin
+        let want = List.length (resync_payload (aview overlay c0)) in
+        let mine = List.filter (fun (tt, _, _, _, _) -> int_of_n tt = t) dl in
+        if List.length mine <> want || List.exists (fun (_, conn, term, _, code) -> code <> COk || Some conn <> c0.c_master || int_of_n term <> int_of_n c0.c_term) mine then
+          specviol id "c10_resync_incomplete" (Printf.sprintf "target %d applied term %s->%s with %d of %d re-push request(s) OK in term %s" t (sn c0.c_aterm) (sn c.c_aterm)
+                                                 (List.length (List.filter (fun (_, _, _, _, code) -> code = COk) mine)) want (sn c0.c_term))
+      end) pcfg;
   (* device requests of this step *)
   List.iter (fun (t, conn, term, (_ : req), code) ->
     let t = int_of_n t in
@@ -388,6 +460,40 @@ let monitors id (label : sx) (pre : istate) (post : istate) (dl : (n * n * n * r
        | [ A "rec"; A "cfg"; _; _; _ ] ->
          if c.c_state <> CSynchronizing then specviol id "c10_resync_outside_synchronizing" (Printf.sprintf "target %d" t)
        | _ -> specviol id "c10_request_from_unexpected_step" (Printf.sprintf "target %d" t))) dl;
+  (* C11: a recorded refusal is final; a change is marked applied only by a request the device answered OK (or because
+     the applied index already covers it, or on a persistent target, which has no device) *)
+  List.iter (fun ((t, i), p0) ->
+    match find_assoc (t, i) pprops with
+    | Some p1 ->
+      if p0.p_apply = Some Failed && p1.p_apply <> Some Failed then
+        specviol id "c11_refusal_not_final" (Printf.sprintf "proposal %d-%d apply FAILED -> %s" t i (s_ph p1.p_apply));
+      if p0.p_apply = Some Doing && p1.p_apply = Some Done then begin
+        let ok_now = List.exists (fun (tt, _, _, _, code) -> int_of_n tt = t && code = COk) dl in
+        let covered = match find_assoc t qcfg with Some c0 -> int_of_n c0.c_applied >= i | None -> false in
+        let persistent = match List.assoc_opt (n_of_int t) (w_targets prew) with Some b -> b | None -> false in
+        if not (ok_now || covered || persistent) then
+          specviol id "c11_applied_without_ok" (Printf.sprintf "proposal %d-%d became APPLIED in a step without an OK answer of the device" t i)
+      end;
+      (* C07/C01: an abort that has started is never turned into a commit, and the other way round *)
+      if p0.p_abort <> None && p1.p_abort = None then specviol id "c07_abort_forgotten" (Printf.sprintf "proposal %d-%d" t i);
+      if p0.p_commit = Some Done && p1.p_commit <> Some Done then specviol id "c07_commit_forgotten" (Printf.sprintf "proposal %d-%d" t i)
+    | None -> specviol id "c07_proposal_vanished" (Printf.sprintf "proposal %d-%d" t i)) qprops;
+  (* C04: a step in which the device of a target answered no request with OK changes neither that device nor what the
+     applied values of the target stand for *)
+  List.iter (fun (t, c0) ->
+    match find_assoc t pcfg with
+    | Some c1 ->
+      let ok_now = List.exists (fun (tt, _, _, _, code) -> int_of_n tt = t && code = COk) dl in
+      let restart = (match lst label with [ A "devrestart"; tt ] -> inum tt = t | _ -> false) in
+      if not ok_now && not restart then begin
+        let lv c = List.sort compare (List.map (fun (p, v) -> (str_of p, str_of v)) (live (aview overlay c))) in
+        if lv c0 <> lv c1 then
+          specviol id "c04_applied_values_changed_without_ok" (Printf.sprintf "target %d applied=[%s] -> [%s]" t
+            (String.concat "," (List.map (fun (p, v) -> p ^ "=" ^ v) (lv c0))) (String.concat "," (List.map (fun (p, v) -> p ^ "=" ^ v) (lv c1))));
+        let dv w = match List.assoc_opt (n_of_int t) (w_devs w) with Some d -> d.d_state | None -> [] in
+        if dv prew <> dv postw then specviol id "c04_device_changed_without_ok" (Printf.sprintf "target %d" t)
+      end
+    | None -> ()) qcfg;
   (* C04: after a complete apply answered OK, and after a completed re-push, the device holds what the applied values
      stand for (live leaves that are not beneath a deleted path) *)
   (let complete = match lst label with
@@ -481,6 +587,15 @@ let end_monitors hid (st : istate) quiescent (nb : sx) (gets : string) =
         | Some tg -> List.exists (fun tt -> List.assoc_opt tt (w_targets w) = Some true) tg | None -> false in
       let terminal = t.t_state = TApplied || (t.t_state = TFailed && (t.t_abort = Some Done || t.t_apply = Some Failed)) in
       let behind_wedge = List.exists (fun (wi, wt) -> wi < i && List.mem_assoc (wt, i) props) (c09_wedged w) in
+      (* C11: a failed transaction fails that change only - when everything before transaction i has ended and one of
+         those failed on a target of i (or is its direct predecessor), i must still run to its end *)
+      let term_of (tj : cmap txn) = tj.t_state = TApplied || (tj.t_state = TFailed && (tj.t_abort = Some Done || tj.t_apply = Some Failed)) in
+      let earlier = List.filter (fun (j, _) -> j < i) txs in
+      if not terminal && not targets_persistent && List.for_all (fun (_, tj) -> term_of tj) earlier
+         && List.exists (fun (j, tj) -> tj.t_state = TFailed && (j = i - 1 || (match tj.t_props, t.t_props with
+             | Some a, Some b -> List.exists (fun x -> List.mem x b) a | _ -> false))) earlier then
+        specviol hid "c11_failed_transaction_blocks_successor" (Printf.sprintf "transaction %d is %s (val=%s com=%s app=%s) at the fixed point although every earlier transaction has ended"
+          i (s_ts t.t_state) (s_ph t.t_validate) (s_ph t.t_commit) (s_ph t.t_apply));
       if not terminal && not targets_persistent then
         specviol hid (if behind_wedge then "c09_unapplied_behind_failed_tx" else "c09_stranded_transaction") (Printf.sprintf "transaction %d is %s init=%s val=%s com=%s app=%s abo=%s at the fixed point" i (s_ts t.t_state)
           (s_ph t.t_init) (s_ph t.t_validate) (s_ph t.t_commit) (s_ph t.t_apply) (s_ph t.t_abort))) txs;
@@ -600,6 +715,34 @@ let end_monitors hid (st : istate) quiescent (nb : sx) (gets : string) =
            specviol hid (if below_tombstone_only c (List.sort compare leaves) (live_of c) then "c03_recreate_under_tombstone" else "c03_get_differs_from_store") (Printf.sprintf "target %d Get=[%s] stored=[%s]" t
              (String.concat "," (List.map (fun (p, v) -> p ^ "=" ^ v) (List.sort compare leaves))) (String.concat "," (List.map (fun (p, v) -> p ^ "=" ^ v) (live_of c))))
        | _ -> ())) (String.split_on_char ';' gets)
+
+(* C05: the document the model plugin was shown is the candidate configuration - the loaded values with the change
+   (or, for a rollback, with the rollback values of the change being rolled back) merged in *)
+let c05_document id (label : sx) (pre : istate) (doc : string) =
+  match lst label with
+  | [ A "rec"; A "prop"; t; i; _; v ] when atom v <> "-1" && doc <> "big" ->
+    let t = inum t and i = inum i in
+    (match List.assoc_opt (t, i) (props_of pre.w), List.assoc_opt t (cfgs_of pre.w) with
+     | Some p, Some cfg ->
+       let vw = view overlay cfg in
+       let cand = match p.p_details with
+         | PChange ch -> Some (candidate vw ch)
+         | PRollback ri ->
+           (match List.assoc_opt (t, int_of_n ri) (props_of pre.w) with
+            | Some q -> (match q.p_rbvalues with Some rb -> Some (candidate_rb vw rb) | None -> Some vw)
+            | None -> None) in
+       (match cand with
+        | Some c ->
+          stat "c05.documents_compared";
+          let want = List.sort compare (List.map (fun (pth, vl) -> hex_of pth ^ "=" ^ hex_of vl) (live c)) in
+          let got = if doc = "." then [] else List.sort compare (String.split_on_char ',' doc) in
+          if want <> got then
+            specviol id "c05_document_is_not_the_candidate"
+              (Printf.sprintf "proposal %d-%d: the plugin was shown [%s], the candidate configuration is [%s]" t i
+                 (String.concat "," got) (String.concat "," want))
+        | None -> ())
+     | _ -> ())
+  | _ -> ()
 
 (* ------------------------------------------------------------------ step validation *)
 let oracle_of (pre : istate) (label : sx) (dl : (n * n * n * req * code) list) choice : oracle =
@@ -737,7 +880,11 @@ let model_posts (pre : istate) (label : sx) (post : istate option) dl : (unit ->
 (* which properties' model parts a step exercises: a disagreement on that step breaks their tie to the code *)
 let props_of_step (label : sx) (pre : istate) (crashed : bool) : string =
   let base = match lst label with
-    | A "rec" :: A "tx" :: _ -> [ "C01"; "C05"; "C09" ]
+    | A "rec" :: A "tx" :: i :: _ ->
+      (* the transaction controller next to a failed predecessor: C11's "later transactions still proceed" *)
+      (match List.assoc_opt (inum i - 1) (txs_of pre.w) with
+       | Some tp when tp.t_state = TFailed -> [ "C01"; "C05"; "C09"; "C11" ]
+       | _ -> [ "C01"; "C05"; "C09" ])
     | A "rec" :: A "master" :: _ | A "rec" :: A "conn" :: _ -> [ "C10" ]
     | A "rec" :: A "cfg" :: _ -> [ "C04"; "C10" ]
     | [ A "rec"; A "prop"; t; i; _; _ ] ->
@@ -838,6 +985,7 @@ let () =
          validate id label pre post dl;
          check_result id label pre dl res;
          monitors id label pre post dl;
+         (match rest with _ :: doc :: _ -> c05_document id label pre doc | _ -> ());
          List.iter (fun (_, c) ->
            if s_cm (overlay c.c_inline c.c_values) <> s_cm c.c_values then stat "loaded_values_differ_from_committed_map";
            if s_cm (overlay c.c_ainline c.c_avalues) <> s_cm c.c_avalues then stat "loaded_applied_values_differ_from_applied_map") (cfgs_of post.w)
@@ -848,6 +996,7 @@ let () =
       let label = parse_sx label in
       stat ("noop." ^ label_name label);
       (match h.prev, rest with Some pre, r :: _ -> check_result id label pre [] r | _ -> ());
+      (match h.prev, rest with Some pre, _ :: doc :: _ -> c05_document id label pre doc | _ -> ());
       (match rest with r :: _ -> c09_note id label r | [] -> ());
       (match h.prev with
        | Some pre ->
